@@ -504,7 +504,9 @@ def boolean_and_simplifier(*args):
 
     if not eq_list:
         return flattened
-    if any(any(ne is eq for eq in eq_list) for ne in ne_list):
+    # (by structure, not by identity: structurally equal constants are normally one object, but this must not turn
+    # `x == 0 && x != 0` into `x == 0` when they happen not to be - two threads can build the same constant at once)
+    if any(any(ne is eq or ne.hash() == eq.hash() for eq in eq_list) for ne in ne_list):
         return claripy.false()
     if all(v.op == "BVV" for v in eq_list) and all(v.op == "BVV" for v in ne_list):
         mustbe = eq_list[0]
